@@ -275,7 +275,7 @@ def rule_R1_R3_R4(P, rep):
     BLOCKED = P.enum_consts["ABT_THREAD_STATE_BLOCKED"]
     maywrite = P.may_write("ABTI_thread", "p_pool")
     for cb in SUSPEND_CBS:
-        F = P.fn(cb, Y)
+        F = P.fn(cb, Y, flat=True)
         ps = [p for p in seq.sequences(F, _cb_sel()) if p[1] == "ret"]
         rep.need(ps, "%s: no path" % cb)
         for toks, kind, rv, rtxt in ps:
@@ -328,7 +328,7 @@ def rule_R1_R3_R4(P, rep):
         "ythread_callback_yield_impl": ("0", None),
     }
     for cb, (cls, _) in sorted(classes.items()):
-        F = P.fn(cb, Y)
+        F = P.fn(cb, Y, flat=True)
         for toks, kind, rv, rtxt in seq.sequences(F, _cb_sel()):
             if kind != "ret":
                 continue
@@ -386,7 +386,7 @@ def rule_R2(P, rep):
                 why.append("pool not loaded before the push (after the push another stream may re-associate the unit)")
         rep.ob("R2", "resume_and_push: READY+push, then decrement of the pre-loaded pool [%s]" % show(toks), not why,
                "; ".join(why), loc="%s:%d" % (F.file, F.line), site="resume_and_push")
-    F = P.fn("ABTI_ythread_callback_thread_yield_to", Y)
+    F = P.fn("ABTI_ythread_callback_thread_yield_to", Y, flat=True)
     sel = Sel(calls={"ABTI_pool_add_thread", DEC, INC, "ABTI_thread_handle_request"}, reads={POOLF},
                   conds=lambda t: "ABTI_thread_handle_request(" in t, canon=True)
     for toks, kind, rv, rtxt in seq.sequences(F, sel):
